@@ -3,12 +3,13 @@ module hopverif
 go 1.24
 
 require (
+	github.com/AstromechZA/etcpwdparse v0.0.0-20170319193008-f0e5f0779716
 	github.com/sirupsen/logrus v1.8.3
+	golang.org/x/crypto v0.11.1-0.20230711161743-2e82bdd1719d
 	hop.computer/hop v0.0.0
 )
 
 require (
-	github.com/AstromechZA/etcpwdparse v0.0.0-20170319193008-f0e5f0779716 // indirect
 	github.com/BurntSushi/toml v1.2.0 // indirect
 	github.com/cloudflare/circl v1.6.1 // indirect
 	github.com/creack/pty v1.1.18 // indirect
@@ -17,7 +18,6 @@ require (
 	github.com/pkg/errors v0.9.1 // indirect
 	github.com/sbinet/pstree v0.3.0 // indirect
 	goji.io v2.0.2+incompatible // indirect
-	golang.org/x/crypto v0.11.1-0.20230711161743-2e82bdd1719d // indirect
 	golang.org/x/exp v0.0.0-20221215174704-0915cd710c24 // indirect
 	golang.org/x/sys v0.30.0 // indirect
 	golang.org/x/term v0.10.0 // indirect
